@@ -120,7 +120,9 @@ Definition eff (s s' : state) (t : tid) (a a' : thread) : Prop :=
      match r with
      | ROk x => (t_pc a = PUnlocked /\ good a = true /\ x = t_txid a /\ t_entry a' = t_entry a) \/
                 (t_pc a = PDone /\ x = None /\ t_txid a = None /\ t_entry a' = t_entry a) \/
-                (exists e, t_pc a = PIkLookup (Some e) /\ x = e_txid e)
+                (exists e, t_pc a = PIkLookup (Some e) /\
+                   ((same_kind (e_kind e) (rq_kind (t_req a)) = true /\ x = e_txid e) \/
+                    (same_kind (e_kind e) (rq_kind (t_req a)) = false /\ x = None)))
      | RErr _ => True
      | RCrashed => False
      end) /\
@@ -256,7 +258,8 @@ Ltac s_resp H0 H1 := let r := fresh "r" in let E := fresh "E" in
              repeat match goal with Q : covers _ _ _ = _ |- _ => rewrite Q | Q : t_postings _ = _ |- _ => rewrite Q end;
              reflexivity
            | right; left; split; [reflexivity|split; [reflexivity|split; [|reflexivity]]]; apply H1; assumption
-           | right; right; eexists; split; reflexivity ] ].
+           | right; right; eexists; split; [reflexivity|];
+             first [ left; split; [assumption|reflexivity] | right; split; [assumption|reflexivity] ] ] ].
 Ltac s_found := let K := fresh "K" in let F := fresh "F" in
   intros K F; cbn in F |- *; first [ left; reflexivity | discriminate F | congruence | right; congruence
    | match goal with Q : negb ?f = false |- _ => destruct f; [left; reflexivity|discriminate Q] end ].
